@@ -355,6 +355,26 @@ func addTime(T map[string]intrinsic) {
 	}
 	T["(time.Time).Equal"] = cmp("Equal")
 	T["(time.Time).Compare"] = cmp("Compare")
+	T["(time.Time).ZoneBounds"] = func(m *Machine, th *Thread, fr *Frame, f FuncV, a []Value) (Value, invStatus) {
+		t := a[0].(TimeV)
+		zeroT := TimeV{ns: m.tt.BV(0, 64), zero: m.tt.tt}
+		if z := m.realZoneOf(t.loc); z != nil {
+			// a concrete instant in a zone of the real tz database: the real time package
+			if rt, ok := m.concreteFlat(t); ok {
+				lo, hi := rt.ZoneBounds()
+				mk := func(x time.Time) Value {
+					if x.IsZero() {
+						return zeroT
+					}
+					return TimeV{ns: m.tt.BV(uint64(x.UnixNano()), 64), zero: m.tt.ff, loc: t.loc}
+				}
+				return done(TupleV{mk(lo), mk(hi)})
+			}
+			panic(unsupported("ZoneBounds on a symbolic instant in a real zone"))
+		}
+		// every other location of the models is a fixed one (UTC): its only zone has no bounds
+		return done(TupleV{zeroT, zeroT})
+	}
 	T["(time.Time).IsZero"] = func(m *Machine, th *Thread, fr *Frame, f FuncV, a []Value) (Value, invStatus) {
 		return done(a[0].(TimeV).zero)
 	}
